@@ -124,7 +124,7 @@ CHECKS = {
        "spec/MC_PyExpr.tla, target-language words at every name position (spec/Rename.tla), every repository sample, seeded "
        "token-level mutants and a literal-lexeme grid, with annotate off and on - is handed to CPython's compile(); TLC (spec/CompileJudge.tla) accepts a record iff the "
        "input was rejected with diagnostics or the emitted text compiled.",
-  note="'Accepted by the Python 3 compiler' = compile(text, name, 'exec') of CPython 3.11. Open known findings KF-C02-6..9 (shapes that "
+  note="'Accepted by the Python 3 compiler' = compile(text, name, 'exec') of CPython 3.11. Open known findings KF-C02-8, -9 (shapes that "
        "only token-level mutants produce) are keyed by compiler message / shape of the emitted text.",
   tech="CPython compile() of every emitted module over TLC-enumerated inputs + mutants, judged by TLC",
   ref="DESIGN.md 9/C02"),
